@@ -663,3 +663,4 @@ def run(ctx):
 def replay(ctx, payload):
     ctx.extra["rule"] = RULE
     process(ctx, [payload["case"]])
+THEOREMS += ['gen_init', 'gen_len', 'gen_address', 'gen_tell', 'gen_bytes_available', 'gen_seek', 'gen_getitem', 'gen_slice']   # translator tie: generated function bodies = model (Props/C13Gen.lean)
